@@ -51,7 +51,7 @@ var subst = map[string]map[string]target{
 	"sync": {
 		"Mutex": {"verifsim/simsync", "zsimsync", "Mutex"}, "RWMutex": {"verifsim/simsync", "zsimsync", "RWMutex"},
 		"Once": {"verifsim/simsync", "zsimsync", "Once"}, "WaitGroup": {"verifsim/simsync", "zsimsync", "WaitGroup"},
-		"Map": {"verifsim/simsync", "zsimsync", "Map"},
+		"Map": {"verifsim/simsync", "zsimsync", "Map"}, "Pool": {"verifsim/simsync", "zsimsync", "Pool"},
 	},
 	"go.uber.org/atomic": {
 		"Int64": {"verifsim/simatomic", "zsimatomic", "Int64"}, "Uint64": {"verifsim/simatomic", "zsimatomic", "Uint64"},
